@@ -42,8 +42,8 @@ THEOREMS = {
 
 NE = 256
 GOOD_FNS = (0, 1, 2, 3)
-ALWAYS_BAD = (4, 5, 6)
-KEY_BAD = (7, 8, 9)
+ALWAYS_BAD = (4, 5, 6, 14)
+KEY_BAD = (7, 8, 9, 13)
 SIZE_BAD = (10, 11, 12)  # in range for some table sizes only (harness/hash.c h10..h12)
 BIG = 1 << 36            # bucket counts above this are refused by the allocation interposer
 
@@ -501,6 +501,10 @@ def fn_value(f, k, m):
         return M - 1
     if f in (7, 8, 9):
         return modm if k % 4 != 3 else (m, (m + 1) % M, M - 1)[f - 7]
+    if f == 13:
+        return modm if k % 4 != 3 else (1 << 32) + modm
+    if f == 14:
+        return (1 << 63) + modm
     if f == 10:
         return k % 8
     if f == 11:
